@@ -138,6 +138,9 @@ func solveAll(ts []*fnTrans, outDir string, timeout time.Duration, cross bool, w
 	var jobs []job
 	for _, t := range ts {
 		for _, o := range t.obls {
+			if o.Result != "" {
+				continue // decided without a solver (SSA sweeps)
+			}
 			jobs = append(jobs, job{t, o})
 		}
 	}
